@@ -127,7 +127,7 @@ class QuasisepSolver(Solver):
             Ks = kernel(self.X, X_test)
 
         A = self.solve_triangular(Ks)
-        return Kss - A.transpose() @ A
+        return Kss + noise - A.transpose() @ A
 
 
 def _check_sorted(X: JAXArray) -> None:
